@@ -185,6 +185,15 @@ int main(int argc, char ** argv) {
                 for (size_t k = 0; k < np; ++k) { auto [lb, ub, vl, q] = gm(models[k], b0); co << "gapmin" << lb << ub; dumpVList(co, vl); dumpMat(co, q); }
             });
             if (!ok) o << "NOCONV";
+        } else if (kind == "resume") {   // resume h1 h2 <pomdp> <nb> <beliefs>: PBVI h1 steps, then h2 more from the returned ValueFunction
+            unsigned h1 = c.nextSize(), h2 = c.nextSize(); Tables t = readPomdp(c); auto bs = readBeliefs(c, t.S);
+            POMDP::Model<MDP::Model> dense(t.O, t.Ob, t.S, t.A, t.T, t.R, t.g);
+            POMDP::PBVI first(0, h1, 0.0), second(0, h2, 0.0), fresh(0, h1 + h2, 0.0);
+            auto vf1 = std::get<1>(first(dense, bs));
+            auto [var, vf2] = second(dense, bs, vf1);
+            o << "resumed" << var << vf2.size(); for (const auto & l : vf2) dumpVListFull(o, l);
+            auto [varf, vff] = fresh(dense, bs);
+            o << "fresh" << varf << vff.size(); for (const auto & l : vff) dumpVListFull(o, l);
         } else if (kind == "perseus_d1") {   // perseus_d1 <pomdp with discount 1>: PERSEUS must reject it
             Tables t = readPomdp(c);
             POMDP::Model<MDP::Model> dense(t.O, t.Ob, t.S, t.A, t.T, t.R, t.g);
